@@ -89,7 +89,10 @@ func errWrapf(err error, msg string, v ...interface{}) error {
 func splitAllPaths(path string) []string {
 	dir, file := filepath.Dir(path), filepath.Base(path)
 	parts := []string{}
-	for dir != file {
+	// Continue until the root ("/", or "." for relative paths) is reached.
+	// (Comparing dir with file does not work as stop criterion, since it also
+	// stops at any folder that has the same name as the file or folder in it)
+	for file != "." && file != string(filepath.Separator) {
 		parts = append([]string{file}, parts...)
 		dir, file = filepath.Dir(dir), filepath.Base(dir)
 	}
